@@ -29,10 +29,9 @@ class Known:
         return f"{e['id']}: {e['what']}"
 
     def bucket_of(self, fid):
-        for e in self.entries:
-            if e["id"] == fid:
-                return e["bucket"]
-        return None
+        """set of buckets recorded for a finding (a finding may show through several narrow buckets)"""
+        bs = {e["bucket"] for e in self.entries if e["id"] == fid}
+        return bs or None
 
     def listed(self):
         seen = []
